@@ -59,6 +59,7 @@ class Ctx:
         self.broken = []          # list of (what, detail)
         self.violations = []      # list of replay dicts
         self.known_hits = []      # list of finding dicts that reproduced
+        self.stale_model = False
         self.cov = {}
         self.obligations = []
         self.discharged = []
@@ -150,6 +151,31 @@ class Ctx:
         if hits:
             raise Broken("forbidden construct in Lean sources", "\n".join(hits[:10]))
         self.note("proofs re-checked: %d theorems, axioms within {propext, Classical.choice, Quot.sound}" % len(self.discharged))
+
+    def prepare(self, jobs, module, quick, extra_targets=("model",)):
+        """Regenerates the tables, re-checks the property module, audits the axioms. A failure is recorded (the tie is
+        broken) and the check goes on looking for a failing input: with the rebuilt model driver if it still builds, else
+        with the driver built by the last run that succeeded (its reference oracles - hand transcriptions of the
+        documentation - do not depend on the regenerated tables; its model of the code is the code as it was). Returns
+        False only if there is no driver at all."""
+        try:
+            if jobs:
+                self.extract(jobs)
+            self.prove(module, extra_targets=extra_targets)
+            if not quick:
+                self.leanchecker(module)
+            return True
+        except Broken as b:
+            self.add_broken(b.what, b.detail)
+        ok, out = self.lake(["model"])
+        if ok:
+            return True
+        if os.path.exists(MODEL):
+            self.stale_model = True
+            self.note("the model driver cannot be rebuilt; searching with the driver built before")
+            return True
+        self.add_broken("model driver no longer builds", out[-2000:])
+        return False
 
     def leanchecker(self, module):
         with Lock("lake"):
